@@ -41,12 +41,13 @@ MOD = "example.com/w"
 SRC = {
     "w/a/svc.go": "package apk\n\ntype A1 interface{ F(x int) string }\n\ntype A2 interface{ G() error }\n",
     "w/a/b/svc.go": "package bpk\n\ntype B1 interface{ F(x int) string }\n",
+    "w/a/b/c/svc.go": "package cpk\n\ntype C1 interface{ F(x int) string }\n",
     "w/k/svc.go": "package kpk\n\ntype K1 interface{ F(x int) string }\n\ntype K2 interface{ G() }\n",
     "w/unrelated.txt": "keep me\n",
     "w/a/notes.md": "keep me too\n",
 }
-PKGPATH = {"a": MOD + "/a", "ab": MOD + "/a/b", "k": MOD + "/k"}
-PKGNAME = {"a": "apk", "ab": "bpk", "k": "kpk"}
+PKGPATH = {"a": MOD + "/a", "ab": MOD + "/a/b", "abc": MOD + "/a/b/c", "k": MOD + "/k"}
+PKGNAME = {"a": "apk", "ab": "bpk", "abc": "cpk", "k": "kpk"}
 GO_TOOL_FILES = ("w/go.mod", "w/go.sum")      # inputs the go command may touch; never written by mockery
 ARGV = {"run": [], "showconfig": ["showconfig"], "version": ["version"], "help": ["--help"], "badflag": ["--no-such-flag"],
         "badcmd": ["frobnicate"]}
@@ -67,7 +68,8 @@ def tok_text(toks):
 
 
 DIRFORM = {"def": "{{.InterfaceDir}}", "mocks": "{{.InterfaceDir}}/mocks", "up": "{{.InterfaceDir}}/../gen"}
-SUBTAG = {"ab": "/a/b$"}
+SUBTAG = {"ab": "/a/b$", "abc": "/a/b/c$"}
+DATAVAL = {"str": "yes", "int": 7}
 
 
 def value(param, v, R):
@@ -82,6 +84,8 @@ def value(param, v, R):
         return "^(" + "|".join(sorted(v)) + ")$" if v else ""
     if param == "exclude-subpkg-regex":
         return [SUBTAG[x] for x in v]
+    if param == "template-data":
+        return {k: DATAVAL[x] for k, x in (v.items() if isinstance(v, dict) else [])}
     return v
 
 
@@ -91,6 +95,8 @@ def level(cfg, node, R):
 
 def config_doc(world, R, decoy=False):
     cfg, shape = world["cfg"], world["shape"]
+    if world.get("cfgkind") == "empty":
+        return None
     doc = level(cfg, "root", R)
     if decoy:
         doc["structname"] = "Decoy{{.InterfaceName}}"
@@ -104,6 +110,10 @@ def config_doc(world, R, decoy=False):
     if shape == "S3":
         pk["interfaces"]["Nope"] = {"config": level(cfg, "k.Nope", R)}
     doc["packages"] = {PKGPATH["a"]: pa, PKGPATH["k"]: pk}
+    if shape == "S4":
+        doc["packages"][PKGPATH["ab"]] = {"config": level(cfg, "ab", R)}
+    if world.get("cfgkind") == "nopackages":
+        del doc["packages"]
     return doc
 
 
@@ -131,7 +141,7 @@ def subst(x, R):
 
 
 def user_content(path):
-    pk = {"a": "apk", "b": "bpk", "k": "kpk"}.get(os.path.basename(os.path.dirname(path)), "gen")
+    pk = {"a": "apk", "b": "bpk", "c": "cpk", "k": "kpk"}.get(os.path.basename(os.path.dirname(path)), "gen")
     return f"package {pk}\n\n// USER CONTENT of {os.path.basename(path)}: must survive unless force-file-write is on\n"
 
 
@@ -161,7 +171,8 @@ class World:
             for segs, name, role in lay["files"]:
                 p = Path(absdir(self.R, segs)) / name
                 p.parent.mkdir(parents=True, exist_ok=True)
-                p.write_text(json.dumps(config_doc(self.world, self.R, decoy=(role == "decoy")), indent=1))
+                doc = config_doc(self.world, self.R, decoy=(role == "decoy"))
+                p.write_text("" if doc is None else json.dumps(doc, indent=1))
         for f in subst(self.world["occ"], self.R):
             Path(f).parent.mkdir(parents=True, exist_ok=True)
             Path(f).write_text(user_content(f))
@@ -189,6 +200,7 @@ class World:
 
 # ---------------------------------------------------------------------------------------------------- observation
 PAIR_RE = [re.compile(r"^// (\w+) is an autogenerated mock type for the (\w+) type", re.M),
+           re.compile(r"^// (\w+) is a mock implementation of (?:\w+\.)?(\w+)\.", re.M),
            re.compile(r"^// (\w+) stands in for (\w+)\.", re.M)]
 
 
@@ -267,7 +279,7 @@ def judge_run(ctx, W, r, before, after):
 
 
 SHOW_PARAMS = ("all", "recursive", "dir", "filename", "structname", "pkgname", "template", "template-schema", "force-file-write",
-               "log-level", "build-tags", "include-interface-regex", "exclude-interface-regex", "exclude-subpkg-regex")
+               "log-level", "build-tags", "formatter", "require-template-schema-exists", "template-data", "include-interface-regex", "exclude-interface-regex", "exclude-subpkg-regex")
 
 
 def judge_showconfig(ctx, W, r):
@@ -297,6 +309,8 @@ def judge_showconfig(ctx, W, r):
             g = shown.get(p)
             if p == "exclude-subpkg-regex":
                 g = g or []
+            if p == "template-data":
+                g = g or {}
             if g != e:
                 bad("showconfig-value", node=node, param=p, expected=e, got=g)
 
@@ -344,6 +358,7 @@ def replay_case(ctx, item):
     W = World(ctx, cid, case)
     before = vlib.tree_hash(W.R)
     r = W.run(ctx)
+    r.cwd = W.cwd
     after = vlib.tree_hash(W.R)
     r.expect = {k: W.exp["exp"][k] for k in ("sel", "known", "mocks", "force", "src", "exit")} if W.world["argv"] == "run" else None
     viols = judge_run(ctx, W, r, before, after)
@@ -406,6 +421,20 @@ def vacuity(cases):
         any_(lambda c, a=argv: Wd(c)["argv"] == a, "command " + argv)
     any_(lambda c: Wd(c).get("tagged") and any(i["iface"] == "K2" for i in E(c)["infos"]), "an interface behind a build tag that is mocked")
     any_(lambda c: Wd(c).get("tagged") and Wd(c)["argv"] == "run" and not any(i["iface"] == "K2" for i in E(c)["infos"]), "an interface behind a build tag that is not seen")
+    T = lambda c: E(c)["table"]  # noqa: E731
+    any_(lambda c: "abc" in T(c) and T(c)["abc"]["src"] == "ab", "a/b/c carrying the settings of the explicitly configured recursive a/b")
+    any_(lambda c: Wd(c)["shape"] == "S4" and "abc" in T(c) and T(c)["abc"]["src"] == "a", "a/b/c carrying a's settings past a non-recursive a/b")
+    any_(lambda c: Wd(c)["shape"] == "S4" and Wd(c)["argv"] == "run" and "abc" not in T(c), "a/b/c outside the table below a configured a/b")
+    any_(lambda c: "abc" in T(c) and T(c).get("ab", {}).get("src") == "a", "two discovered levels below one recursive package")
+    any_(lambda c: Wd(c)["tag"] == "schema" and any(E(c)["mustkeep"].values()) and not all(E(c)["mustkeep"].values()),
+         "template-data rejected for some files of a run and accepted for others")
+    any_(lambda c: Wd(c)["tag"] == "schema" and E(c)["exit"] == "zero", "template-data accepted at file level and per mock")
+    any_(lambda c: Wd(c)["tag"] == "perfile" and len({i["tid"] for i in E(c)["infos"]}) >= 2 and E(c)["exit"] == "zero",
+         "a successful run whose files use different templates")
+    any_(lambda c: Wd(c)["tag"] == "perfile" and len({i["force"] for i in E(c)["infos"]}) == 2, "force-file-write differing between files")
+    any_(lambda c: Wd(c)["tag"] == "perfile" and len({i["req"] for i in E(c)["infos"]}) == 2, "require-template-schema-exists differing between files")
+    any_(lambda c: Wd(c).get("cfgkind") == "empty" and Wd(c)["argv"] == "run", "a run over an empty config file")
+    any_(lambda c: Wd(c).get("cfgkind") == "nopackages" and Wd(c)["argv"] == "showconfig", "showconfig of a config without packages")
     for lvl in ("env", "root", "flag", "a", "a.A1", "a.A1.1"):
         any_(lambda c, n=lvl: n in Wd(c)["cfg"], "a setting at level " + lvl)
 
@@ -557,7 +586,13 @@ def diverse_run(ctx, item):
     rng = random.Random(seed)
     w = diverse_world(ctx, wi, rng)
     runs = []
+    h0 = vlib.tree_hash(w["root"])
     r1 = pipetrace.run(ctx, w["root"], env=w["env"], timeout=120, fail=w["fail"])
+    h1 = vlib.tree_hash(w["root"])
+    # files whose content differs (relative `dir` values make Write.file relative: runtrace normalises with .cwd)
+    r1.cwd = w["root"]
+    r1.changed = [os.path.join(w["root"], k) for k in set(h0) | set(h1)
+                  if h0.get(k) != h1.get(k) and h0.get(k) != "DIR" and h1.get(k) != "DIR" and k not in ("go.mod", "go.sum")]
     runs.append(r1)
     # a second run over the produced tree: existing files with / without force-file-write
     if rng.random() < 0.5:
@@ -634,6 +669,12 @@ def run(ctx):
     if not r_cases.ok:
         raise MachineryError("TLC failed on the case export:\n" + r_cases.tail())
     cases = r_cases.prints("CASE")
+    for c in cases:                       # an empty TLA+ function is printed as an empty array
+        for k in ("uniform", "mustkeep", "allowed", "new", "fsegs", "table", "nodes"):
+            if c["expect"][k] == []:
+                c["expect"][k] = {}
+        if c["world"]["cfg"] == []:
+            c["world"]["cfg"] = {}
     phase["cases"] = round(time.time() - t0, 1)
     if len(cases) < (400 if thorough else 200):
         raise MachineryError(f"only {len(cases)} worlds exported")
